@@ -36,6 +36,21 @@ CLAIMED = {
         technique='Lean 4 structural induction over nested object trees + ownership invariant of the set heap + differential '
                   'correspondence on generated class families with in-process custom loaders',
         design='6/C19'),
+    'C20': dict(
+        text='Lean theorems over an executable model of the future adapters (heap of future cells with done-callbacks, concurrent '
+             'futures invoking callbacks inline, asyncio futures scheduling them): C20_unwrap_innermost, C20_mirror_faithful, '
+             'C20_schedule_rpc_unwraps (every nesting depth by induction, every terminal outcome, every order of completions and '
+             'loop callbacks: the adapter future holds exactly the innermost outcome once all levels are complete, is pending '
+             'before, is set exactly once and no InvalidStateError escapes), C20_create_task_captures, C20_action_runs_at_most_once, '
+             'C20_action_refuses_rerun_and_after_cancel, C20_action_reports_through_itself, C20_done_is_final. The model is compared '
+             'operation by operation with the real adapters on real kiwipy/asyncio futures across a loop thread and a '
+             'communicator thread: all chains of depth <= 4 (quick) / 6 (thorough) x 3 outcomes x all completion orders.',
+        note='Modelled, not verified: asyncio / concurrent.futures (contract stated at the top of Futures/Model.lean), cross-thread '
+             'delivery (interleaving semantics: operations are atomic with respect to the loop thread), LocalCommunicator. '
+             'Exceptions are `Exception`s; chains are acyclic; the consumer does not set the adapter future.',
+        technique='Lean 4 invariant proofs by induction on nesting depth and on the event sequence + differential correspondence on '
+                  'enumerated chains, orders and random operation sequences',
+        design='6/C20'),
 }
 
 PM_NOTE = ('Modelled, not verified: Process.step / step_until_terminated / pause / play / kill / resume / fail / call_soon / '
